@@ -29,7 +29,7 @@ ASSUMPTIONS = [
     "return); cotangent residual |J M^-1 p| <= 1e-8*(1+|p|); Lagrange-form least-squares residual <= 1e-8*scale",
     "icontract from the offline wheelhouse; if unavailable the same predicates are attached with plain wrappers",
 ]
-REQUIRED = {"contract.step": 300, "contract.solver_return": 500, "contract.project": 500, "contract.sample_momentum": 20,
+REQUIRED = {"moved_state_probes": 500, "contract.step": 300, "contract.solver_return": 500, "contract.project": 500, "contract.sample_momentum": 20,
             "chains_run": 5}
 BUDGET_S = {"quick": 150, "thorough": 1500}
 
@@ -274,6 +274,26 @@ def run_case(case, obs) -> None:
             mom = m.system.sample_momentum(m.state(q, p), g)
             _ = m.system.project_onto_cotangent_space(rng.standard_normal(m.dim), m.state(q, p))
             del mom
+            # one state object moved over several points of the manifold (position assigned, momentum sometimes not):
+            # every projection / momentum draw must belong to the cotangent space at the state's *current* position
+            probe = m.state(q, p)
+            for _k in range(4):
+                how = int(rng.integers(0, 4))
+                if how == 0:
+                    _ = m.system.h(probe)
+                elif how == 1:
+                    _ = m.system.project_onto_cotangent_space(rng.standard_normal(m.dim), probe)
+                q2, _p2 = m.random_point(rng)
+                probe.pos = q2
+                if rng.integers(0, 2):
+                    _ = m.system.project_onto_cotangent_space(rng.standard_normal(m.dim), probe)
+                    mom2 = m.system.sample_momentum(probe, g)
+                else:
+                    mom2 = m.system.sample_momentum(probe, g)
+                    _ = m.system.project_onto_cotangent_space(rng.standard_normal(m.dim), probe)
+                if rng.integers(0, 3) == 0:
+                    probe.mom = mom2
+                obs.count("moved_state_probes")
         else:
             import mici
 
